@@ -562,7 +562,8 @@ static int run_rand(const std::string& out, long nconf, long nops, const std::st
 static std::vector<Op> write_alphabet(Store& s) {
   const ProjDataInfo& p = *s.pdi;
   std::vector<Op> al;
-  for (int k = p.get_min_tof_pos_num(); k <= p.get_max_tof_pos_num(); ++k)
+  for (int k = p.get_min_tof_pos_num(); k <= p.get_max_tof_pos_num(); ++k) {
+    if (k != p.get_min_tof_pos_num() && k != p.get_max_tof_pos_num()) continue;   // first and last TOF bin (keeps the number of pairs manageable)
     for (int g = p.get_min_segment_num(); g <= p.get_max_segment_num(); ++g) {
       for (int a = p.get_min_axial_pos_num(g); a <= p.get_max_axial_pos_num(g); ++a) {
         al.push_back(Op{ SETSINO, g, a, 0, 0, k, 0 });
@@ -577,6 +578,7 @@ static std::vector<Op> write_alphabet(Store& s) {
       al.push_back(Op{ SETSEGV, g, 0, 0, 0, k, 0 });
       al.push_back(Op{ SETSEGS, g, 0, 0, 0, k, 0 });
     }
+  }
   al.push_back(Op{ FILL, 0, 0, 0, 0, 0, 0 });
   al.push_back(Op{ FILLFROM, 0, 0, 0, 0, 0, 0 });
   al.push_back(Op{ FILLITER, 0, 0, 0, 0, 0, 0 });
